@@ -144,8 +144,10 @@ class World:
             vals = []
             for ti in idxs:
                 t = self.tensor_objs[ti]
-                v = ir.Value(name=f"init_{next(name_ctr)}_{ti}", const_value=t)
-                # do not let the Value rename shared tensor objects inconsistently: name follows the value
+                v = ir.Value(const_value=t)
+                # the name setter aligns the tensor's own name with the value's name (the usual
+                # situation); a tensor object shared by several values keeps the last one
+                v.name = f"init_{next(name_ctr)}_{ti}"
                 vals.append(v)
             values_per_graph.append(vals)
         sub_nodes = []
